@@ -55,7 +55,9 @@ FeatSets == {FeatAll, <<>>,
              <<"subscriber:publisher_identification", "callee:caller_identification",
                "callee:call_canceling", "callee:progressive_call_results">>,
              <<"callee:call_canceling", "callee:progressive_call_invocations", "caller:progressive_call_invocations">>,
-             <<"caller:progressive_call_invocations", "callee:progressive_call_invocations">>}
+             <<"caller:progressive_call_invocations", "callee:progressive_call_invocations">>,
+             \* sessions that do not announce every role ("-role": left out of the HELLO); the router serves them all the same
+             <<"-subscriber">>, <<"-callee", "-publisher">>, <<"callee:call_canceling", "-subscriber", "-caller">>}
 
 \* payload passthru mode (Mode = "ppt"): sessions that announced it for every role, for some, for none
 PptAll   == <<"publisher:payload_passthru_mode", "caller:payload_passthru_mode", "callee:payload_passthru_mode">>
